@@ -24,6 +24,9 @@ func treeOpts(t *rapid.T, thorough bool) gen.Opts {
 	if thorough {
 		o.BigTips = 300
 	}
+	// a third of the trees carry node, root and branch comments (annotations of other programs): they
+	// are not part of what is compared, the operations must work around them
+	o.Comments, o.OneLine = rapid.IntRange(0, 2).Draw(t, "comments") == 0, true
 	if rapid.Bool().Draw(t, "names-not-supports") {
 		o.InnerNames = gen.AnyPresence
 	} else {
@@ -549,7 +552,7 @@ func genOut(t *rapid.T, thorough bool) OutCase {
 func TestC05Outgroup(t *testing.T) {
 	h.Run(t, h.Spec[OutCase]{
 		Property: "C05", Name: "outgroup", Quick: 16000, Thorough: 800000,
-		Rule: "same trees x outgroup of classes {clade, complement of a clade, single tip, random subset, subset mixed with absent names, only absent names} x strict x remove (>=3 tips remain) x indexed or not; in a quarter of the cases the same list was first used on the tree pruned of some outgroup tips (stream usage); oracle = split-side predicate from the reference split set, root-clade / equal-halves predicates, Restrict for removal; non-trivial = multifurcating or rooted input, zero-length branch, or complement outgroup",
+		Rule:  "same trees x outgroup of classes {clade, complement of a clade, single tip, random subset, subset mixed with absent names, only absent names} x strict x remove (>=3 tips remain) x indexed or not; in a quarter of the cases the same list was first used on the tree pruned of some outgroup tips (stream usage); oracle = split-side predicate from the reference split set, root-clade / equal-halves predicates, Restrict for removal; non-trivial = multifurcating or rooted input, zero-length branch, or complement outgroup",
 		Gen:   genOut,
 		Check: indexesAfter(checkOut),
 		Classify: func(c OutCase) (bool, []string) {
